@@ -308,8 +308,10 @@ def check(P, prop, tier, seed, t0):
         "wall_s": round(time.time() - t0, 2),
         "violations": len(viol) + (1 if (exit_code and not viol) else 0),
     }
-    os.makedirs(os.path.join(C.VERIF, "evidence"), exist_ok=True)
-    with open(os.path.join(C.VERIF, "evidence", prop + ".json"), "w") as f:
+    # evidence/ records runs against /repo only; a development run against a scratch worktree (VERIF_REPO) writes elsewhere (git-ignored)
+    evdir = "evidence" if C.REPO == "/repo" else os.path.join(".work", "evidence-scratch")
+    os.makedirs(os.path.join(C.VERIF, evdir), exist_ok=True)
+    with open(os.path.join(C.VERIF, evdir, prop + ".json"), "w") as f:
         json.dump(ev, f, indent=1, default=str)
     for ln in lines:
         print(ln)
